@@ -207,7 +207,89 @@ def check_targets(run, tbl, be, label):
         yield Finding("target:roundtrip", be, None, f"{label}: round trip raised {type(e).__name__}: {str(e)[:200]}", exc=type(e).__name__)
 
 
+def dtype_zoo(run):
+    """Source frames of every Polars dtype: a dtype is either rejected by the Table constructor or survives
+    filter / copy / slice / every target / re-import with the same values and the same (canonical) dtype."""
+    import datetime as dt
+    import decimal
+
+    import polars as pl
+
+    import pydiverse.transform as pdt
+
+    tz = dt.timezone.utc
+    zoo = {
+        "UInt8": pl.Series([1, None, 3], dtype=pl.UInt8), "UInt16": pl.Series([1, None, 3], dtype=pl.UInt16), "UInt32": pl.Series([1, None, 3], dtype=pl.UInt32),
+        "UInt64": pl.Series([1, None, 3], dtype=pl.UInt64), "Int8": pl.Series([1, None, -3], dtype=pl.Int8), "Int16": pl.Series([1, None, -3], dtype=pl.Int16),
+        "Int32": pl.Series([1, None, -3], dtype=pl.Int32), "Int64": pl.Series([1, None, -3], dtype=pl.Int64), "Float32": pl.Series([1.5, None, -3.25], dtype=pl.Float32),
+        "Float64": pl.Series([1.5, None, -3.25], dtype=pl.Float64), "Decimal": pl.Series([decimal.Decimal("1.50"), None, decimal.Decimal("-3.25")], dtype=pl.Decimal(10, 2)),
+        "Bool": pl.Series([True, None, False]), "String": pl.Series(["a", None, "b'c"]), "Categorical": pl.Series(["a", None, "b"], dtype=pl.Categorical),
+        "Enum": pl.Series(["a", None, "b"], dtype=pl.Enum(["a", "b"])), "Date": pl.Series([dt.date(2020, 2, 29), None, dt.date(1999, 12, 31)]),
+        "Datetime(us)": pl.Series([dt.datetime(2020, 1, 1, 1, 2, 3), None, dt.datetime(1999, 12, 31)]),
+        "Datetime(ms)": pl.Series([dt.datetime(2020, 1, 1, 1, 2, 3), None, dt.datetime(1999, 12, 31)], dtype=pl.Datetime("ms")),
+        "Datetime(ns)": pl.Series([dt.datetime(2020, 1, 1, 1, 2, 3), None, dt.datetime(1999, 12, 31)], dtype=pl.Datetime("ns")),
+        "Datetime(us,UTC)": pl.Series([dt.datetime(2020, 1, 1, 1, 2, 3, tzinfo=tz), None, dt.datetime(1999, 12, 31, tzinfo=tz)], dtype=pl.Datetime("us", "UTC")),
+        "Duration": pl.Series([dt.timedelta(days=1), None, dt.timedelta(seconds=5)]), "Time": pl.Series([dt.time(1, 2, 3), None, dt.time(23, 59)]),
+        "List(Int64)": pl.Series([[1, 2], None, []], dtype=pl.List(pl.Int64)), "List(String)": pl.Series([["a"], None, []], dtype=pl.List(pl.String)),
+        "Array": pl.Series([[1, 2], None, [3, 4]], dtype=pl.Array(pl.Int64, 2)), "Struct": pl.Series([{"a": 1}, None, {"a": 2}]), "Binary": pl.Series([b"a", None, b"b"]),
+        "Null": pl.Series([None, None, None]),
+    }  # fmt: skip
+    for name, ser in zoo.items():
+        df = pl.DataFrame({"k": [1, 2, 3], "c": ser})
+        run.case(shape=("dtype_zoo", name), nontrivial=True)
+        try:
+            t = pdt.Table(df, name="z")
+        except Exception as e:  # noqa: BLE001
+            if type(e).__name__ in ("KeyError", "TypeError", "NotSupportedError", "ValueError"):
+                run.counters["dtype_rejected_by_constructor"] += 1
+            else:
+                run.finding(Finding("zoo", "pol", None, f"Table() with a {name} column raised {type(e).__name__}: {str(e)[:160]}", exc=type(e).__name__, extra={"feature": None}), None)
+            continue
+        static = t.c.dtype()
+        want = static.to_polars()
+        try:
+            q = t >> pdt.filter(t.k > 0) >> pdt.mutate(c2=t.c) >> pdt.arrange(t.k)
+            out = q >> pdt.export(pdt.Polars())
+            lazy = (q >> pdt.export(pdt.Polars(lazy=True))).collect()
+            lod = q >> pdt.export(pdt.ListOfDicts())
+            dol = q >> pdt.export(pdt.DictOfLists())
+            one = q >> pdt.select(t.c) >> pdt.slice_head(1) >> pdt.export(pdt.Scalar())
+            series = t.c.export(pdt.Polars())
+            back = pdt.Table(out, name="z2")
+            back_df = back >> pdt.export(pdt.Polars())
+        except Exception as e:  # noqa: BLE001
+            run.finding(Finding("zoo", "pol", None, f"{name} column (static {static}): {type(e).__name__}: {str(e)[:200]}", exc=type(e).__name__, extra={"feature": None}), None)
+            continue
+        run.counters["dtype_zoo_roundtrips"] += 1
+        vals = out["c"].to_list()
+        probs = []
+        def dtype_ok(d):
+            # the static Datetime type carries neither unit nor time zone: any Datetime column is "Datetime"
+            return d == want or (want.base_type() == pl.Datetime and d.base_type() == pl.Datetime)
+
+        if not dtype_ok(out["c"].dtype) or out["c2"].dtype != out["c"].dtype:
+            probs.append(f"exported dtype {out['c'].dtype} / {out['c2'].dtype} != static {static} ({want})")
+        if vals != df["c"].cast(out["c"].dtype).to_list() or out["c2"].to_list() != vals:
+            probs.append(f"values changed: {vals}")
+        if not lazy.equals(out):
+            probs.append("Polars(lazy=True) differs")
+        if [r["c"] for r in lod] != vals or dol["c"] != vals or list(dol) != ["k", "c", "c2"]:
+            probs.append("ListOfDicts / DictOfLists differ")
+        if isinstance(one, pl.Series):
+            one = one.to_list()
+        if one != vals[0]:
+            probs.append(f"Scalar {one!r} != {vals[0]!r}")
+        if series.to_list() != vals or series.dtype != out["c"].dtype:
+            probs.append("ColExpr.export differs")
+        if str(back.c.dtype()) != str(static) or not back_df.equals(out):
+            probs.append(f"re-import: static {back.c.dtype()} vs {static}, frame equal: {back_df.equals(out)}")
+        for p in probs:
+            run.finding(Finding("zoo", "pol", None, f"{name} column: {p}", extra={"feature": None}), None)
+
+
 def execute(run, prop, shard):
+    if shard is None or shard[0] == 0:
+        dtype_zoo(run)
     n = 110 if run.tier == "quick" else 700
     rng = random.Random(f"C20:{run.seed}:{run.tier}:{shard[0] if shard else 0}")
     cache = {}
